@@ -50,6 +50,18 @@ def _e_cols():
                     yield dict(indices=run, d=-1, W=W)
 
 
+@enum('slices_from_targets', 'every strictly increasing anchor list inside an axis of length <= 5, both directions, limit 0..3, 3 slice predicates')
+def _e_sft():
+    for length in range(0, 6):
+        for mask in range(1 << length):
+            idx = [i for i in range(length) if mask >> i & 1]
+            vals = [f'v{i}' for i in idx]
+            for fwd in (True, False):
+                for limit in range(0, 4):
+                    for cond in (lambda s: True, lambda s: s.start % 2 == 0, lambda s: False):
+                        yield dict(target_index=idx, target_values=vals, length=length, directional_forward=fwd, limit=limit, slice_condition=cond)
+
+
 def run_for(key, contract, limit=None):
     if key not in ENUMS:
         return None
